@@ -4,6 +4,7 @@ mod apply;
 mod concretise;
 mod model;
 mod observe;
+mod load;
 mod project;
 mod query;
 mod reads;
@@ -132,6 +133,11 @@ fn main() {
     let style = IdStyle(std::env::var("VERIF_IDSTYLE").ok().and_then(|s| s.parse().ok()).unwrap_or(0));
     let r = match args.get(1).map(|s| s.as_str()) {
         Some("replay") => replay(&args[2], &args[3], style),
+        Some("load") => {
+            // child process of a Load event: exit status carries the outcome
+            let code = load::child_main(&args[2], &args[3], style);
+            std::process::exit(code);
+        }
         Some("conc") => {
             // stamverif conc '<json {shape, ops, schedule}>'
             let a: serde_json::Value = serde_json::from_str(&args[2]).expect("harness: conc args");
